@@ -60,13 +60,15 @@ def handle_bad(ctx, binp, drv, cases, bad, profile):
 # snapshot) and compares: Natural exactly, Saturating<u64/u128> exactly while 2^vars is representable
 # and the marker otherwise (0 stays 0), F64 exactly below 2^53 and within 1e-9 relative above.
 # A SAT op is resolved at the next SNAP: handles are only created/dropped right after a SNAP, and a
-# SNAP precedes every VARS (ZBDD counts are taken with vars = number of variables).
+# SNAP precedes every VARS.  ZBDD: the path count shifted by vars - levels; as Saturating<uW> the exact
+# count while it fits, the marker otherwise.
 DD_TYPES = ["u64", "u128", "f64", "nat", "nat_fresh"]
 DD_KINDS = ["bdd", "bcdd", "zbdd"]
 
 
 def dd_vars(kind, n):
-    return [n] if kind == "zbdd" else [n, n + 1, n + 3, n + 70, 1100]
+    # (ZBDD: sat_count(vars) is the path count shifted by vars - levels)
+    return [n, n + 1, n + 3, n + 70, 1100]
 
 
 def dd_case_all3(cid, kind, order, rng, sweeps):
@@ -178,9 +180,7 @@ def dd_case_reuse(cid, kind, rng, rounds):
         vs = dd_vars(kind, pool.nv + add)
         a = rng.choice(vs)
         b = rng.choice([v for v in vs if v != a] or vs) if rng.random() < 0.8 else a
-        if kind == "zbdd":
-            a = b = None          # always the current number of variables
-        cur = lambda x: pool.nv if x is None else x
+        cur = lambda x: x
         # phase 1: queries with a
         hs = list(pool.live)
         rng.shuffle(hs)
@@ -287,7 +287,7 @@ DD_RULE = ("stage 2 (sat_count on real managers, kinds bdd/bcdd/zbdd): all 256 t
            "cache-reuse histories on functions over 4..10 variables with shared sub-DAGs (one SatCountCache per number type "
            "per case): sat_count(f,a); event in {gc, reorder, drop+gc+rebuild (node ids recycled), add_vars, gc+add_vars, none}; "
            "exactly one sat_count(g,b); sat_count(h,a) on every handle sharing nodes with g; alternations of a and b; random "
-           "interleavings; vars in {n, n+1, n+3, n+70, 1100} (zbdd: n); types Saturating<u64>, Saturating<u128>, F64, Natural "
+           "interleavings; vars in {n, n+1, n+3, n+70, 1100}; types Saturating<u64>, Saturating<u128>, F64, Natural "
            "(reused cache) and Natural with a fresh cache per query; every result compared with the exact count of the handle's "
            "value table")
 
